@@ -25,6 +25,12 @@ NEEDS = {
  "C07-m1": "a non-critical error followed later in the same run by any warning (even a filtered one): the latch is overwritten, exit 0 and files written",
  "C07-m2": "a displayed warning with two spans on one source line under --report-format=graphical (label-fixup 'br 1 + 2', missing-newline with -Wall): TypeError in the handler, exit 1, while bare format / disabled warning succeed",
  "C07-m3": "a non-critical error issued through the parser's report= path (\\x without hex digits in a string, '^R' without characters): printed but not latched, exit 0",
+ "C08-m1": "'.extern NAME' of a name that is never defined plus a reference to NAME: KeyError instead of undefined-symbol (only at the final evaluation)",
+ "C08-m2": "'.end' (or an effective '.once') inside a .repeat body whose count is a forward reference, so that the body is compiled late when no file-level block is on the stack: CompilerStopIteration escapes",
+ "C08-m3": ".rad50 with a raw digit <50> (= 40, accepted by an off-by-one) as FIRST digit of a group whose packed value exceeds 65535: struct.error",
+ "C18-m1": "two or more input files on the command line under different PYTHONHASHSEED values (files linked in set order)",
+ "C18-m2": "a '.once'-guarded file included by the probe after an earlier assembly in the same process included a file of the same path (counter dictionary shared by all Compilers)",
+ "C18-m3": "an included file with parse-time diagnostics or once-only constructs, included again by a later assembly in the same process (parsed includes cached by path and text)",
  "C09-m1": "a branch/SOB whose target address is >= 0o200000 because the base is near the top of the address space (rejected only at that base)",
  "C09-m2": "two sibling include files behind at least one code statement, a PC-relative reference from one to a code label at non-zero offset of the other, link base unknown during the pass (.link last or absent)",
  "C09-m3": "an include as first emitting statement that itself includes a further file whose code refers outwards PC-relatively, no .link before it",
